@@ -309,8 +309,56 @@ Fixpoint s_run (s : ssys) (ms : list mop) : list obs :=
   | m :: t => let '(s', o) := s_mop s m in o :: s_run s' t
   end.
 
+(* --- the client loop selfmon.withActiveLock over StartEphemeral ---
+   A watcher calls StartEphemeral until it succeeds (ErrKeyExists: sleep 1 s and
+   retry), then runs f under a context that is cancelled when the expiry channel
+   closes or the caller cancels; when f returns it unregisters.  In the macro
+   operations a watcher is a registrant plus "pending" (still retrying):
+     MReg i    start watcher i: registered at once (ResOk, f runs) or pending;
+     MTickAll  all tickers fire, then the pending watcher's retry happens;
+     MStop i   the caller cancels watcher i's context;
+   closed = f has run and returned.  The harness keeps at most one watcher
+   pending at a time, so the order of retries is determined. *)
+Definition retry_pending {S} (mopf : S -> mop -> S * obs) (s : S) (p : option nat) : S * option nat :=
+  match p with
+  | None => (s, None)
+  | Some j => let '(s', o) := mopf s (MReg j) in
+              match o_res o with ResOk => (s', None) | _ => (s', Some j) end
+  end.
+
+Definition w_mop {S} (mopf : S -> mop -> S * obs) (obsf : S -> mres -> bool -> obs)
+                 (st : S * option nat) (m : mop) : (S * option nat) * obs :=
+  let '(s, p) := st in
+  match m with
+  | MReg i =>
+      let '(s', o) := mopf s (MReg i) in
+      match o_res o with ResOk => ((s', p), o) | _ => ((s', Some i), o) end
+  | MLapse => let '(s', o) := mopf s MLapse in ((s', p), o)
+  | MTickAll =>
+      let '(s1, _) := mopf s MTickAll in
+      let '(s2, p') := retry_pending mopf s1 p in
+      (* a watcher that has just registered ticks as well before the observation *)
+      let '(s3, _) := mopf s2 MTickAll in
+      ((s3, p'), obsf s3 ResNone true)
+  | MStop i =>
+      match p with
+      | Some j => if Nat.eqb i j then ((s, None), obsf s ResNone true)
+                  else let '(s', o) := mopf s (MStop i) in ((s', p), o)
+      | None => let '(s', o) := mopf s (MStop i) in ((s', p), o)
+      end
+  end.
+
+Fixpoint w_run {S} (mopf : S -> mop -> S * obs) (obsf : S -> mres -> bool -> obs)
+               (st : S * option nat) (ms : list mop) : list obs :=
+  match ms with
+  | [] => []
+  | m :: t => let '(st', o) := w_mop mopf obsf st m in o :: w_run mopf obsf st' t
+  end.
+
 (* --- cases --- *)
-Inductive backend := BEtcd | BRedis.
+(* BEtcd / BRedis: StartEphemeral driven directly; BEtcdW / BRedisW: through
+   selfmon.withActiveLock *)
+Inductive backend := BEtcd | BRedis | BEtcdW | BRedisW.
 Record case := mkCase {
   k_backend : backend;
   k_ttls : list Z;          (* per registrant: etcd lease ttl (s) / redis ttl (ms) *)
@@ -321,6 +369,8 @@ Definition model_obs (c : case) : list obs :=
   match k_backend c with
   | BEtcd => e_run (run_skip estep esys_init (map GNew (k_ttls c))) (k_ops c)
   | BRedis => s_run (run_skip sstep ssys_init (map QNew (k_ttls c))) (k_ops c)
+  | BEtcdW => w_run e_mop e_obs (run_skip estep esys_init (map GNew (k_ttls c)), None) (k_ops c)
+  | BRedisW => w_run s_mop s_obs (run_skip sstep ssys_init (map QNew (k_ttls c)), None) (k_ops c)
   end.
 
 Definition agree (c : case) : bool := lobs_eqb (model_obs c) (k_obs c).
@@ -334,7 +384,8 @@ Definition agree (c : case) : bool := lobs_eqb (model_obs c) (k_obs c).
          (at most one believes; a lapsed registrant has been notified);
      (Y) a Stop by a registrant that is not the owner does not remove the key;
      (W) a Reg succeeds only when the key was absent, and then the key exists. *)
-Record view := mkView { v_active : list nat; v_owner : option nat; v_key : bool }.
+Record view := mkView { v_active : list nat; v_owner : option nat; v_key : bool; v_pend : option nat }.
+Definition is_w (b : backend) : bool := match b with BEtcdW | BRedisW => true | _ => false end.
 
 Definition remove_nat (i : nat) (l : list nat) : list nat := filter (fun j => negb (Nat.eqb i j)) l.
 Definition mem_nat (i : nat) (l : list nat) : bool := existsb (Nat.eqb i) l.
@@ -348,20 +399,29 @@ Definition ok_step (b : backend) (v : view) (m : mop) (o : obs) : bool * view :=
       match o_res o with
       | ResOk =>
           (negb (v_key v) && o_key o
-           && match b with BEtcd => onat_eqb (o_owner o) (Some i) | BRedis => true end,
-           mkView (i :: remove_nat i (v_active v)) (Some i) (o_key o))
-      | _ => (true, mkView (v_active v) owner0 (o_key o))
+           && match b with BEtcd | BEtcdW => onat_eqb (o_owner o) (Some i) | _ => true end,
+           mkView (i :: remove_nat i (v_active v)) (Some i) (o_key o) (v_pend v))
+      | _ => (true, mkView (v_active v) owner0 (o_key o) (if is_w b then Some i else v_pend v))
       end
-  | MLapse => (true, mkView (v_active v) owner0 (o_key o))
+  | MLapse => (true, mkView (v_active v) owner0 (o_key o) (v_pend v))
   | MTickAll =>
       let act := filter (fun i => negb (closed_at o i)) (v_active v) in
-      (forallb (fun i => o_key o && onat_eqb owner0 (Some i)) act,
-       mkView act owner0 (o_key o))
+      (* watcher mode: a key that appears during the tick was created by the pending watcher *)
+      let taken := is_w b && negb (v_key v) && o_key o in
+      let '(act', owner', pend') :=
+        match v_pend v with
+        | Some j => if taken then (j :: remove_nat j act, Some j, None) else (act, owner0, v_pend v)
+        | None => (act, owner0, None)
+        end in
+      (forallb (fun i => o_key o && onat_eqb owner' (Some i)) act'
+       && match b, owner' with BEtcdW, Some j => onat_eqb (o_owner o) (Some j) | _, _ => true end,
+       mkView act' owner' (o_key o) pend')
   | MStop i =>
       let act := filter (fun j => negb (closed_at o j)) (remove_nat i (v_active v)) in
       let mine := onat_eqb (v_owner v) (Some i) in
+      let pend' := match v_pend v with Some j => if Nat.eqb i j then None else Some j | None => None end in
       ((if mine then true else Bool.eqb (o_key o) (v_key v)),
-       mkView act (if mine then None else owner0) (o_key o))
+       mkView act (if mine then None else owner0) (o_key o) pend')
   end.
 
 Fixpoint ok_run (b : backend) (v : view) (ms : list mop) (os : list obs) : bool :=
@@ -371,4 +431,4 @@ Fixpoint ok_run (b : backend) (v : view) (ms : list mop) (os : list obs) : bool 
   | _, _ => false
   end.
 
-Definition ok (c : case) : bool := ok_run (k_backend c) (mkView [] None false) (k_ops c) (k_obs c).
+Definition ok (c : case) : bool := ok_run (k_backend c) (mkView [] None false None) (k_ops c) (k_obs c).
